@@ -240,10 +240,10 @@ Proof.
   set (body := i8 0 ++ put_varint (r_ts r - ts0) ++ put_varint (r_off r - base) ++ vbytes (r_key r)
                ++ vbytes (r_val r) ++ put_varint (Z.of_nat (length (r_hdrs r))) ++ flat_map enc_rec_header (r_hdrs r)) in *.
   assert (VL : vsmall (blen body)) by (pose proof (len_nonneg body); apply vsmall_len; unfold blen, len in *; lia).
-  Show. rewrite top_st. rewrite <- app_assoc.
+  rewrite top_st. rewrite <- (app_assoc (put_varint (blen body)) body rest).
   rewrite (step_st _ _ _ _ _ _ _ _ _ (mspec_lift _ _ _ (pspec_varint _ VL))).
   rewrite top_st. cbv zeta. cbn [f_remain].
-  unfold body at 1. rewrite <- !app_assoc.
+  subst body. rewrite <- !app_assoc.
   rewrite (step_st _ _ (i8 0) 0) by (apply mspec_lift, pspec_int; [lia|unfold in_signed; cbn; lia]).
   rewrite (step_st _ _ _ _ _ _ _ _ _ (mspec_lift _ _ _ (pspec_varint _ V1))).
   rewrite (step_st _ _ _ _ _ _ _ _ _ (mspec_lift _ _ _ (pspec_varint _ V2))).
@@ -261,9 +261,10 @@ Proof.
   replace (c =? 0) with false by lia. unfold ret, msg_fields, h. cbn [h_first h_lod h_ts m_stack m_empty m_elast set_stack unwind f_in f_remain f_base f_count f_hdr].
   unfold small in *.
   rewrite !wrap64_small by lia.
+  unfold st, set_stack. cbn [m_stack m_empty m_lrem m_elast f_in f_remain f_base f_count f_hdr unwind].
   f_equal.
   - repeat f_equal; lia.
-  - unfold st. f_equal. rewrite !len_app. unfold blen, len. lia.
+  - f_equal. rewrite !len_app. unfold blen, len. lia.
 Qed.
 
 Lemma record_short base ts0 lod L attr n r q q' c lr el :
@@ -301,4 +302,82 @@ Proof.
               (Z.to_nat (Z.min (Z.of_nat (length (r_hdrs r))) (f_remain f + 1))) m f ps q0 q0' Hex He0 Hq0) as [i' Hi'].
   { rewrite Hr. pose proof (len_nonneg q0). lia. }
   rewrite Hi'. exists i'. reflexivity.
+Qed.
+
+(* ---------------------------------------------------------------- the v2 batch header *)
+Definition hdr61 (b : pbatch) (plen : Z) : list N :=
+  i64 (pb_base b) ++ i32 (49 + plen) ++ i32 0 ++ i8 2 ++ i32 0
+  ++ i16 (pb_codec b) ++ i32 (pb_lod b) ++ i64 (pb_ts b) ++ i64 (pb_ts b)
+  ++ i64 (-1) ++ i16 (-1) ++ i32 (-1) ++ i32 (Z.of_nat (length (pb_recs b))) ++ [].
+
+Lemma hdr61_len b plen : len (hdr61 b plen) = 61.
+Proof. unfold hdr61, i64, i32, i16, i8. rewrite !len_app, !put_bes_len. reflexivity. Qed.
+
+Definition batch_fits (b : pbatch) (plen : Z) : Prop :=
+  small (pb_base b) /\ 0 <= plen < 2 ^ 30 /\ 0 <= pb_codec b <= 4 /\ 0 <= pb_lod b < 2 ^ 31
+  /\ small (pb_ts b) /\ Z.of_nat (length (pb_recs b)) < 2 ^ 30.
+
+Lemma sg1 z : - 2 ^ 7 <= z < 2 ^ 7 -> in_signed 1 z.
+Proof. unfold in_signed. change (Z.of_N (pow256 1 / 2)) with (2 ^ 7). lia. Qed.
+Lemma sg2 z : - 2 ^ 15 <= z < 2 ^ 15 -> in_signed 2 z.
+Proof. unfold in_signed. change (Z.of_N (pow256 2 / 2)) with (2 ^ 15). lia. Qed.
+Lemma sg4 z : - 2 ^ 31 <= z < 2 ^ 31 -> in_signed 4 z.
+Proof. unfold in_signed. change (Z.of_N (pow256 4 / 2)) with (2 ^ 31). lia. Qed.
+Lemma sg8 z : - 2 ^ 63 <= z < 2 ^ 63 -> in_signed 8 z.
+Proof. unfold in_signed. change (Z.of_N (pow256 8 / 2)) with (2 ^ 63). lia. Qed.
+
+Ltac int_spec := apply mspec_lift, pspec_int; [lia|first [apply sg1|apply sg2|apply sg4|apply sg8]; unfold small in *; lia].
+Ltac int_short := apply mshort_lift, pshort_int; unfold i64, i32, i16, i8; rewrite put_bes_len; reflexivity.
+
+Lemma header_ok b plen rest c h lr el :
+  batch_fits b plen ->
+  read_next_header (st (hdr61 b plen ++ rest) c h lr el)
+  = MOk tt (st rest (Z.of_nat (length (pb_recs b))) (vhdr b plen) plen
+               (if Z.of_nat (length (pb_recs b)) =? 0 then pb_base b + pb_lod b else el)).
+Proof.
+  intros (B1 & B2 & B3 & B4 & B5 & B6).
+  unfold read_next_header, hdr61. rewrite <- !app_assoc.
+  rewrite (step_st _ _ (i64 (pb_base b)) (pb_base b)) by int_spec.
+  rewrite (step_st _ _ (i32 (49 + plen)) (49 + plen)) by int_spec.
+  rewrite (step_st _ _ (i32 0) 0) by int_spec.
+  rewrite (step_st _ _ (i8 2) 2) by int_spec.
+  cbn [Z.eqb Pos.eqb].
+  rewrite (step_st _ _ (i32 0) 0) by int_spec.
+  rewrite (step_st _ _ (i16 (pb_codec b)) (pb_codec b)) by int_spec.
+  rewrite (step_st _ _ (i32 (pb_lod b)) (pb_lod b)) by int_spec.
+  rewrite (step_st _ _ (i64 (pb_ts b)) (pb_ts b)) by int_spec.
+  rewrite (step_st _ _ (i64 (pb_ts b)) (pb_ts b)) by int_spec.
+  rewrite (step_st _ _ (i64 (-1)) (-1)) by int_spec.
+  rewrite (step_st _ _ (i16 (-1)) (-1)) by int_spec.
+  rewrite (step_st _ _ (i32 (-1)) (-1)) by int_spec.
+  rewrite (step_st _ _ (i32 (Z.of_nat (length (pb_recs b)))) (Z.of_nat (length (pb_recs b)))) by int_spec.
+  cbn [app]. unfold bind, upd_top, set_lrem, set_elast, ret, st, set_stack, vhdr.
+  cbn [m_stack m_empty m_lrem m_elast f_in f_remain f_base f_count f_hdr].
+  replace (49 + plen - 49) with plen by lia.
+  destruct (Z.of_nat (length (pb_recs b)) =? 0); cbn [m_stack m_empty m_lrem m_elast]; [|reflexivity].
+  unfold small in *. rewrite wrap64_small by lia. reflexivity.
+Qed.
+
+Lemma header_short b plen q q' c h lr el :
+  batch_fits b plen -> hdr61 b plen = q ++ q' -> q' <> [] ->
+  exists i', read_next_header (st q c h lr el) = MErr EShort (st i' c h lr el).
+Proof.
+  intros (B1 & B2 & B3 & B4 & B5 & B6) He Hq.
+  eapply (mshort_st read_next_header (hdr61 b plen)); [|exact He|exact Hq].
+  unfold read_next_header, hdr61.
+  apply mshort_bind with (v1 := pb_base b); [int_spec|int_short|].
+  apply mshort_bind with (v1 := 49 + plen); [int_spec|int_short|].
+  apply mshort_bind with (v1 := 0); [int_spec|int_short|].
+  apply mshort_bind with (v1 := 2); [int_spec|int_short|].
+  cbn [Z.eqb Pos.eqb].
+  apply mshort_bind with (v1 := 0); [int_spec|int_short|].
+  apply mshort_bind with (v1 := pb_codec b); [int_spec|int_short|].
+  apply mshort_bind with (v1 := pb_lod b); [int_spec|int_short|].
+  apply mshort_bind with (v1 := pb_ts b); [int_spec|int_short|].
+  apply mshort_bind with (v1 := pb_ts b); [int_spec|int_short|].
+  apply mshort_bind with (v1 := -1); [int_spec|int_short|].
+  apply mshort_bind with (v1 := -1); [int_spec|int_short|].
+  apply mshort_bind with (v1 := -1); [int_spec|int_short|].
+  apply mshort_bind with (v1 := Z.of_nat (length (pb_recs b))); [int_spec|int_short|].
+  apply mshort_nil.
 Qed.
